@@ -43,6 +43,9 @@ type Tree struct {
 	lineage    int
 	hChanged   bool
 	flushFailedBefore bool
+	// unsure: an op on this tree ran under an injected load fault (C09/C04 fault histories); the
+	// model may legitimately disagree from here on and model-based oracles are off for this tree
+	unsure bool
 }
 
 // Version is a captured version: clone handle, cursor, or persisted root.
@@ -192,6 +195,19 @@ func (w *World) cfgPredicate() string {
 	return ""
 }
 
+// softFor: an oracle of another property failed at a point where the run can meaningfully go on
+// (the property under judgement has its own oracle on what follows): it is counted, and
+// reported only when that other property is the one under judgement.
+func (w *World) softFor(prop, clause, detail string, a ...interface{}) bool {
+	if w.prop == prop {
+		w.fail(clause, detail, a...)
+		return true
+	}
+	w.st.Skipped++
+	w.st.Probes["other-property-oracle-failed:"+prop+"/"+clause]++
+	return false
+}
+
 func (w *World) stopped() bool { return w.viol != nil || w.st.Truncated != "" }
 
 // ---- helpers: calling into the library with panic capture ----
@@ -283,7 +299,7 @@ func firstDiff(a, b []string) string {
 // sanity checks that a working tree's observable contents equal its model (C01's core
 // oracle). For other properties a mismatch truncates the run as unrelated.
 func (w *World) sanity(t *Tree, after string) bool {
-	if t == nil || t.m == nil {
+	if t == nil || t.m == nil || t.unsure {
 		return true
 	}
 	obs, r := w.observe(t.m)
@@ -598,6 +614,9 @@ func (w *World) opInsert(op *Op) {
 		return
 	}
 	key, val := w.kd.Key(op.Key), w.vd.Val(op.Val)
+	if w.faultedOp(op, t, func() error { return t.m.Insert(ctx, key, val) }) {
+		return
+	}
 	r := guard(func() error { return t.m.Insert(ctx, key, val) })
 	if r.bad() {
 		w.failFor("C01", "insert-fails", "Insert(key#%d) on healthy store: %s", op.Key, r)
@@ -621,6 +640,13 @@ func (w *World) opDelete(op *Op) {
 	key, val := w.kd.Key(op.Key), w.vd.Val(op.Val)
 	cur, present := t.model.Get(op.Key)
 	shouldOK := present && !w.vd.Distinct(cur, op.Val)
+	if w.faultedOp(op, t, func() error { return t.m.Delete(ctx, key, val) }) {
+		return
+	}
+	if t.unsure {
+		guard(func() error { return t.m.Delete(ctx, key, val) })
+		return
+	}
 	r := guard(func() error { return t.m.Delete(ctx, key, val) })
 	if r.panicked != nil {
 		w.failFor("C01", "delete-panics", "Delete(key#%d,val#%d) present=%v: %s", op.Key, op.Val, present, r)
@@ -649,6 +675,33 @@ func (w *World) opDelete(op *Op) {
 		t.hChanged = true
 	}
 	w.sanityEvery(t, "del")
+}
+
+// faultedOp runs a modifying op with one Load call of that op failing (flavour "loadfault",
+// index op.N). Whatever the op returns, the tree is from then on judged only by oracles that do
+// not need the model (shape, size-vs-reachable, content addressing of what it persists).
+func (w *World) faultedOp(op *Op, t *Tree, call func() error) bool {
+	if op.F != "loadfault" || w.cfg.InMemory {
+		return false
+	}
+	d := w.disks[t.disk]
+	d.BeginCall()
+	d.FailLoadAt, d.FailLoadKind = op.N, "fail"
+	before := d.Fired["load-fail"]
+	r := guard(call)
+	d.ClearFaults()
+	if d.Fired["load-fail"] == before {
+		// the fault did not fire: the op ran normally; apply the model update by re-dispatching
+		// is not possible (already executed) — treat the tree as unsure as well, conservatively
+		t.unsure = true
+		return true
+	}
+	w.st.Faults["load-fail"]++
+	t.unsure = true
+	if r.err != nil {
+		w.st.Probes["modifying-op-failed-under-load-fault"]++
+	}
+	return true
 }
 
 func (w *World) opGet(op *Op) {
@@ -1246,6 +1299,13 @@ func (w *World) opPersist(op *Op) {
 	}
 	wasDirty := t.m.IsDirty()
 	preObs := w.modelObs(t.model)
+	if t.unsure {
+		if o, r := w.observe(t.m); !r.bad() {
+			preObs = o
+		} else {
+			return
+		}
+	}
 	d.BeginCall()
 	fr := w.schedMakeRoot(t.m, d, faults, failAt, failKind, stall)
 	_, stored, _, storeCalls := d.Window()
@@ -1311,20 +1371,36 @@ func (w *World) opPersist(op *Op) {
 	// C03 invariant 1: complete and durable (checked on the durable map = after a crash)
 	w.st.OracleEvals++
 	reach, obs, missing, r := w.reachByObservation(root, t.disk)
+	readBackOK := true
 	if len(missing) > 0 {
-		w.failFor("C03", "root-incomplete", "returned root reaches %d node(s) that are not in the store (e.g. %s); %d Store calls this flush", len(missing), missing[0], storeCalls)
-		return
+		if w.prop == "C05" {
+			w.fail("persisted-root-unloadable/missing-nodes", "returned root reaches %d node(s) that are not in the store (e.g. %s); %d Store calls this flush", len(missing), missing[0], storeCalls)
+			return
+		}
+		if w.softFor("C03", "root-incomplete", "returned root reaches %d node(s) that are not in the store (e.g. %s); %d Store calls this flush", len(missing), missing[0], storeCalls) {
+			return
+		}
+		readBackOK = false
+	} else if r.bad() {
+		if w.softFor("C05", "persisted-root-unloadable"+w.cfgPredicate(), "root just returned cannot be loaded/iterated from the store: %s", r) {
+			return
+		}
+		readBackOK = false
+	} else if !sameStrs(obs, preObs) {
+		if w.softFor("C05", "persisted-contents-differ"+w.cfgPredicate(), "contents loaded from the returned root differ from the tree's: %s", firstDiff(obs, preObs)) {
+			return
+		}
+		readBackOK = false
+	} else if !t.unsure && int(root.Size) != t.model.Len() {
+		if w.softFor("C05", "root-size-wrong", "Root.Size=%d, entries=%d", root.Size, t.model.Len()) {
+			return
+		}
+		readBackOK = false
 	}
-	if r.bad() {
-		w.failFor("C05", "persisted-root-unloadable"+w.cfgPredicate(), "root just returned cannot be loaded/iterated from the store: %s", r)
-		return
-	}
-	if !sameStrs(obs, preObs) {
-		w.failFor("C05", "persisted-contents-differ"+w.cfgPredicate(), "contents loaded from the returned root differ from the tree's: %s", firstDiff(obs, preObs))
-		return
-	}
-	if int(root.Size) != t.model.Len() {
-		w.failFor("C05", "root-size-wrong", "Root.Size=%d, entries=%d", root.Size, t.model.Len())
+	if !readBackOK {
+		// the version is not registered as a witness; the tree itself goes on under its own oracles
+		t.base, t.baseRoot = nil, nil
+		w.sanity(t, "persist")
 		return
 	}
 	w.st.Probes["persist-ok"]++
